@@ -36,12 +36,14 @@ def to_node(v: Any) -> Any:
     return v
 
 
-def ref_meta(v: Any) -> Optional[dict]:
+def ref_meta(v: Any, g: Optional[ModelGrammar] = None, e: int = 0, hops: Optional[dict] = None) -> Optional[dict]:
+    """traversal values; e = 1: expansion-depthing convention (leaves count 1, every abstract expansion is a node and a level)"""
     if not (isinstance(v, Obj) and v.cls.startswith("node:")):
         return None
+    name = v.cls[5:]
     kids = [c for c in v.fields["gengy_init_values"]]
-    metas = [ref_meta(c) for c in kids]
-    index: dict = {v.cls[5:]: [id(v)]}
+    metas = [ref_meta(c, g, e, hops) for c in kids]
+    index: dict = {name: [id(v)]}
     for c, m in zip(kids, metas):
         if m:
             for k, xs in m["index"].items():
@@ -49,10 +51,16 @@ def ref_meta(v: Any) -> Optional[dict]:
         else:
             index.setdefault("int", []).append(id(c))
     if not kids:
-        return {"nodes": 0, "depth": 0, "weighted": 0, "index": index}      # a terminal production: a leaf
-    nodes = 1 + sum(m["nodes"] for m in metas if m)
-    depth = 1 + max([m["depth"] for m in metas if m] + [0])
-    weighted = depth + sum(m["weighted"] for m in metas if m)
+        return {"nodes": e, "depth": e, "weighted": e, "index": index}      # a terminal production: a leaf
+    adj = [0] * len(kids)
+    if e and g is not None and hops is not None:
+        for i, ((_, ft), c) in enumerate(zip(g.classes[name][2], kids)):
+            if ft.kind == "class" and ft.name in g.classes and g.is_abstract(ft.name) and isinstance(c, Obj):
+                adj[i] = hops.get(ft.name, {}).get(c.cls[5:], 0)
+    cm = [m if m else {"nodes": e, "depth": e, "weighted": e} for m in metas]
+    nodes = 1 + sum(a + m["nodes"] for a, m in zip(adj, cm))
+    depth = max([1] + [m["depth"] + a + 1 for a, m in zip(adj, cm)])
+    weighted = depth + sum(m["weighted"] for m in cm)
     return {"nodes": nodes, "depth": depth, "weighted": weighted, "index": index}
 
 
@@ -69,7 +77,7 @@ def text(v: Any) -> str:
     return "int" if isinstance(v, Sym) else repr(v)
 
 
-def label_program(ctx, g: ModelGrammar, tables: dict, program: Any):
+def label_program(ctx, g: ModelGrammar, tables: dict, program: Any, e: int = 0):
     """interpret relabel_nodes_of_trees(program, grammar); (ok, why-not)"""
     prog = ctx.prog
     fn = prog.functions.get(RELABEL)
@@ -96,7 +104,12 @@ def label_program(ctx, g: ModelGrammar, tables: dict, program: Any):
         if nm == "hasattr" and len(args) == 2 and isinstance(args[1], str):
             return isinstance(args[0], Obj) and args[1] in args[0].fields
         if nm == "isinstance" and len(args) == 2 and isinstance(args[0], (Obj, Sym)):
-            return False if args[1] == BUILTIN_TYPES["list"] or isinstance(args[1], TypeV) else None
+            tys = args[1] if isinstance(args[1], list) else [args[1]]
+            if all(isinstance(t, TypeV) for t in tys):
+                if isinstance(args[0], Sym):
+                    return any(t == INT for t in tys)        # base values of the model are ints
+                return False                                   # a node object is not a list / tuple / base value
+            return None
         if nm == "is_builtin" and len(args) == 1 and isinstance(args[0], TypeV):
             return args[0].kind == "builtin"
         if nm == "is_abstract" and len(args) == 1 and isinstance(args[0], TypeV):
@@ -110,7 +123,7 @@ def label_program(ctx, g: ModelGrammar, tables: dict, program: Any):
     it.allow_recursion = True
     p = fn.params
     env = {p[0]: program, p[1]: Sym("grammar"), f"{p[1]}.non_terminals": tables["self.non_terminals"],
-           f"{p[1]}.expansion_depthing": False, f"{p[1]}.abstract_dist_to_t": tables.get("self.abstract_dist_to_t", {})}
+           f"{p[1]}.expansion_depthing": bool(e), f"{p[1]}.abstract_dist_to_t": tables.get("self.abstract_dist_to_t", {})}
     try:
         runs = it.run(fn, env)
     except Budget:
@@ -129,10 +142,12 @@ def label_rule(ctx, rid: str) -> int:
     """one obligation per creation model grammar: every node of every program of depth <= 3 carries the traversal's values"""
     fn = ctx.prog.functions.get(RELABEL)
     n = 0
-    for g in CREATION_FAMILY:
+    for g, e in [(g_, e_) for g_ in CREATION_FAMILY for e_ in (0, 1)]:
         n += 1
-        construct = f"model grammar '{g.name}': metadata of every node of every program of depth <= 3 equals an independent traversal"
-        tables, why = interpret(ctx, g, 0)
+        construct = (f"model grammar '{g.name}'" + (" [expansion_depthing=True]" if e else "")
+                     + ": metadata of every node of every program of depth <= 3 equals an independent traversal")
+        tables, why = interpret(ctx, g, e)
+        hops = reference(g, e)["hops"]
         if tables is None:
             ctx.ob(rid, fn, fn.node if fn else None, construct, None, f"grammar tables not followed: {why}")
             continue
@@ -145,7 +160,7 @@ def label_rule(ctx, rid: str) -> int:
         checked = 0
         for txt, v in sorted(programs.items()):
             tree = to_node(v)
-            labelled, why = label_program(ctx, g, tables, tree)
+            labelled, why = label_program(ctx, g, tables, tree, e)
             if labelled is None:
                 verdict, detail = None, f"{txt}: {why}"
                 break
@@ -155,7 +170,7 @@ def label_rule(ctx, rid: str) -> int:
             # the interpreter works on a copy of the environment: compare the labelled copy node by node
             for node in reversed(list(all_nodes(labelled))):      # innermost nodes first: the report names the smallest wrong subtree
                 checked += 1
-                want = ref_meta(node)
+                want = ref_meta(node, g, e, hops)
                 f = node.fields
                 got = {"nodes": f.get("gengy_nodes"), "depth": f.get("gengy_distance_to_term"), "weighted": f.get("gengy_weighted_nodes")}
                 for k, label in (("nodes", "node count"), ("depth", "distance to the deepest terminal"), ("weighted", "weighted size")):
